@@ -8,6 +8,7 @@ Tie: the real handle_peer_message runs on a scripted connection inside a private
 12 random bytes are chosen by the check; stored id, reply bodies and replies read at the peer are compared
 with the extracted model run on the same draw (the clock is an oracle: it is read back from the id's tail).  Without namespace support the check falls back to real draws and says so.
 """
+import json
 import os
 import shutil
 import subprocess
@@ -37,12 +38,15 @@ def have_namespace():
         return False
 
 
-def run_ns(exe, fixture, lines, timeout=900, tmpdir=None):
+def run_ns(exe, fixture, lines, timeout=900, tmpdir=None, setenv=None, unsetenv=()):
     """the harness inside a private mount namespace: fixture over /dev/urandom, and over /tmp either a
     fresh tmpfs or (tmpdir) a scratch directory that outlives the process, so that a later process can
     find what an earlier one stored"""
     env = dict(vlib.ENV)
     env.update({"VERIF_C20_NS": "1", "VERIF_C20_FIXTURE": fixture})
+    for k in unsetenv:
+        env.pop(k, None)
+    env.update(setenv or {})
     if tmpdir is None:
         script = 'mount --bind "$1" /dev/urandom && mount -t tmpfs tmpfs /tmp && exec "$2"'
     else:
@@ -207,6 +211,89 @@ def judge_peer(case, o):
     return None
 
 
+def judge_env(outs):
+    """environment sweep: ids returned by repeated calls in one process and by a later process in the same
+    environment are equal and 32 hexadecimal digits"""
+    ids = []
+    for o in outs:
+        for i in (1, 2, 3):
+            if o.get("handled%d" % i) != "true":
+                return "GetMachineId was reported as handled=%s" % o.get("handled%d" % i), ids
+            why, bc = reply_ok(o.get("r%d" % i, "-"), 77, ":1.9")
+            if why:
+                return why, ids
+            if not bc[0].startswith("s:"):
+                return "the GetMachineId reply does not carry one string", ids
+            ids.append(unhx(bc[0][2:]))
+    if not is_machine_id(ids[0]):
+        return "the machine id is not a 32-digit hexadecimal string: %r" % ids[0].decode("latin-1"), ids
+    if any(x != ids[0] for x in ids[:3]):
+        return "the machine id changed between calls in one process although the stored id was not removed", ids
+    if any(x != ids[0] for x in ids[3:]):
+        return "a later process in the same environment did not return the id stored by the earlier one", ids
+    return None, ids
+
+
+def env_sweep(ctx, exe, drv, r, tmpd):
+    """the process environment as an input dimension of the check (the model has none: the code uses a fixed
+    path, so the unchanged code must behave identically in all of them)"""
+    import concurrent.futures as cf
+    configs = [("TMPDIR unset", {}, ("TMPDIR",)),
+               ("TMPDIR=/tmp", {"TMPDIR": "/tmp"}, ()),
+               ("TMPDIR=other existing writable dir", {"TMPDIR": "@ALT@"}, ()),
+               ("TMPDIR=nonexistent dir", {"TMPDIR": "@ALT@/does/not/exist"}, ()),
+               ("TMPDIR=dir below /tmp", {"TMPDIR": "/tmp/sub"}, ()),
+               ("HOME=other dir, XDG_RUNTIME_DIR=other dir", {"HOME": "@ALT@", "XDG_RUNTIME_DIR": "@ALT@"}, ("TMPDIR",)),
+               ("HOME, XDG_RUNTIME_DIR, TMPDIR unset", {}, ("HOME", "XDG_RUNTIME_DIR", "TMPDIR")),
+               ("HOME=nonexistent, XDG_RUNTIME_DIR=nonexistent", {"HOME": "@ALT@/nope", "XDG_RUNTIME_DIR": "@ALT@/nope"}, ())]
+
+    def one(k):
+        name, setenv, unset = configs[k]
+        td = os.path.join(tmpd, "envtmp_%d" % k)
+        alt = os.path.join(tmpd, "envalt_%d" % k)
+        os.makedirs(os.path.join(td, "sub"))
+        os.makedirs(alt)
+        fx = os.path.join(tmpd, "envrandom_%d" % k)
+        open(fx, "wb").write(bytes(12))
+        setenv = {a: b.replace("@ALT@", alt) for a, b in setenv.items()}
+        rr = ctx.sub_rng("env%d" % k)
+        draws = [bytes(rr.randrange(256) for _ in range(12)) for _ in range(6)]
+        res = []
+        for half in (draws[:3], draws[3:]):           # an earlier and a later process, same environment
+            rc, outs, err = run_ns(exe, fx, ["e " + " ".join(d.hex() for d in half)], tmpdir=td, setenv=setenv, unsetenv=unset)
+            res.append((rc, outs, err))
+        return name, draws, res
+
+    with cf.ThreadPoolExecutor(len(configs)) as ex:
+        results = list(ex.map(one, range(len(configs))))
+    for name, draws, res in results:
+        if any(rc != 0 or len(outs) != 1 or outs[0] in ("nofixture", "refused") for rc, outs, err in res):
+            ctx.tie_broken("harness c20 crashed in the environment sweep (%s)" % name, "\n".join(e[-800:] for _, _, e in res))
+            continue
+        outs = [fields(o[0]) for _, o, _ in res]
+        why, ids = judge_env(outs)
+        ctx.case(("env", name), nontrivial=True)
+        if name.startswith("TMPDIR=other"):
+            ctx.samples[:0] = [{"environment": name, "ids_of_6_calls_in_2_processes": [x.decode("latin-1") for x in ids[:6]]}]
+            del ctx.samples[8:]
+        ctx.count("env:" + name)
+        # the model: the id of the first draw, whatever the environment
+        try:
+            secs = int(ids[0][-8:], 16) if ids else 0
+        except ValueError:
+            secs = 0
+        rcm, mouts, errm = run_model(drv, ["u %s %s %d" % (draws[0].hex(), draws[1].hex(), secs)])
+        expect = fields(mouts[0]).get("file1") if rcm == 0 and mouts else None
+        same = bool(ids) and len(ids) == 6 and all(hx(x) == expect for x in ids)
+        if why or not same:
+            ctx.disagreements_checked += 1
+            data = {"kind": "env", "environment": name, "draws": [d.hex() for d in draws], "impl": [o[0] for _, o, _ in res], "model_id": expect}
+            if why:
+                ctx.violation("%s [environment: %s]" % (why, name), data)
+            else:
+                ctx.tie_broken("correspondence: the ids differ from the model's although they are stable 32-hex-digit ids (%s)" % name, str(data))
+
+
 def judge_later_process(o, expected):
     """a later process finds the id an earlier process stored: it must come back unchanged, twice"""
     for k in ("handled1", "handled2"):
@@ -268,7 +355,11 @@ def run(ctx):
                 "put into the /dev/urandom fixture, the stored id removed, GetMachineId called twice (the second time with "
                 "another draw in the fixture); afterwards a LATER process (new namespace, other draw) on the same /tmp directory must "
                 "return the id the earlier process stored. Peer dispatch: all combinations of 7 interfaces x 9 members (absent, exact, "
-                "near misses) x 5 message types (call, signal, method return, error, invalid), with senders/serials varied. Non-trivial: every draw case; a dispatch case whose "
+                "near misses) x 5 message types (call, signal, method return, error, invalid), with senders/serials varied. The process ENVIRONMENT is an input dimension of the check only (the model has none: the code uses the fixed path "
+                "/tmp/dbus_machine_uuid, so it must behave identically in all of them): the namespace runs are repeated with TMPDIR unset, "
+                "=/tmp, =another existing writable directory, =a nonexistent directory, =a directory below /tmp, and HOME/XDG_RUNTIME_DIR "
+                "set elsewhere, to nonexistent directories and unset; per environment three calls in one process (a new draw each time) and "
+                "three in a later process must return one and the same 32-hex-digit id. Non-trivial: every draw case, every environment; a dispatch case whose "
                 "interface is the Peer interface or whose member is Ping/GetMachineId. Distinct = distinct inputs.")
     ctx.trusted = ["Coq 8.16.1 kernel (coqc), no native_compute", "extraction with ExtrOcamlBasic only, ocamlfind ocamlopt 4.13.1",
                    "ocaml/c20/driver.ml and harness/src/bin/c20.rs (I/O wrappers; own little-endian decoder at the peer)",
@@ -462,6 +553,7 @@ def run_in_namespace(ctx, exe, drv, r, thorough, tmpd):
                 ctx.violation(why, data)
             else:
                 ctx.tie_broken("correspondence: the later process differs from the model although the stored id came back unchanged", str(data))
+    env_sweep(ctx, exe, drv, r, tmpd)
     ctx.exhaustive = False
 
 
@@ -515,6 +607,10 @@ def replay(ctx, body):
             print("input:", line)
             print("impl :", outs[0] if outs else err)
             why = judge_peer(c, fields(outs[0])) if outs else "harness failed"
+        elif kind == "env":
+            env_sweep(ctx, exe, drv, ctx.sub_rng("c20"), tmpd)
+            print("environment sweep re-run; recorded environment:", data.get("environment"))
+            why = "; ".join(json.load(open(os.path.join(vlib.VERIF, p)))["what"] for p, _ in ctx.violations) or None
         elif kind == "g":
             td = os.path.join(tmpd, "tmp")
             os.makedirs(td)
